@@ -7,6 +7,7 @@ import ast
 
 from ..core import (AnalysisError, body_nodes, call_name, dotted, is_self_attr, key_text, kwarg,
                     local_defs, names_in, params, parent, stmts_of, unparse)
+from ..pattern import find, pmatch
 from .c09 import check_form_flow
 
 FILES = ['tenpy/networks/mps.py', 'tenpy/algorithms/tebd.py', 'tenpy/algorithms/tdvp.py',
@@ -175,6 +176,123 @@ def check_canonical_form(prog, rep):
                       '(right of site L-1 for ib == L)', e.lineno)
 
 
+def _contract_sides(call):
+    """('left', 'right') roles of the two operands of npc.tensordot(a, b, axes=..) along the
+    chain: contracting a.vR with b.vL puts a to the left of b; a.vL with b.vR to the right."""
+    ax = kwarg(call, 'axes')
+    if ax is None and len(call.args) > 2:
+        ax = call.args[2]
+    if ax is None or not isinstance(ax, (ast.List, ast.Tuple)) or len(ax.elts) != 2:
+        return None
+
+    def labels(e):
+        if isinstance(e, ast.Constant):
+            return [e.value]
+        if isinstance(e, (ast.List, ast.Tuple)):
+            return [x.value for x in e.elts if isinstance(x, ast.Constant)]
+        return []
+
+    la, lb = labels(ax.elts[0]), labels(ax.elts[1])
+    if la == ['vR'] and lb == ['vL']:
+        return ('left', 'right')
+    if la == ['vL'] and lb == ['vR']:
+        return ('right', 'left')
+    return None
+
+
+def check_segment_order(prog, rep):
+    """segment_boundaries = (U_L, V_R) accumulate the gauge matrices split off at the two ends of a
+    segment: [outside] U_L [segment] V_R [outside]. A function that reads the old pair and stores
+    a new one composes each old matrix with the newly split-off one, which lies closer to the
+    segment: new U_L = old U_L . U (old one as LEFT operand of the bond), new V_R = V . old V_R
+    (old one as RIGHT operand)."""
+    m = prog.module(MPS)
+    n = 0
+    for q, f in m.functions.items():
+        roles = {}
+        for st in stmts_of(f):
+            e = pmatch('$l, $r = self.segment_boundaries', st)
+            if e:
+                roles[e['$l']] = 'left'
+                roles[e['$r']] = 'right'
+        writes = [st for st in stmts_of(f) if isinstance(st, ast.Assign) and any(
+            unparse(t) == 'self.segment_boundaries' for t in st.targets)]
+        if not roles or not writes:
+            continue
+        defs = local_defs(f)
+        for w in writes:
+            if not isinstance(w.value, ast.Tuple) or len(w.value.elts) != 2:
+                continue
+            for elt, side in zip(w.value.elts, ('left', 'right')):
+                vals = [elt] if not isinstance(elt, ast.Name) else defs.get(elt.id, [])
+                for v in vals:
+                    if not (isinstance(v, ast.Call) and dotted(v.func) == 'npc.tensordot' and
+                            len(v.args) >= 2):
+                        continue
+                    sides = _contract_sides(v)
+                    if sides is None:
+                        continue
+                    for arg, s_ in zip(v.args[:2], sides):
+                        if isinstance(arg, ast.Name) and arg.id in roles:
+                            n += 1
+                            rep.instance('SEGMENT-order', {'function': q, 'call': unparse(v)[:70],
+                                                           'old_matrix': arg.id,
+                                                           'boundary': roles[arg.id],
+                                                           'operand_side': s_})
+                            if roles[arg.id] != side:
+                                rep.violation('SEGMENT-order', m, q, 'swapped:%s' % arg.id,
+                                              'the new %s boundary is built from the old %s one '
+                                              '(`%s`)' % (side, roles[arg.id], arg.id), v.lineno)
+                            elif s_ != side:
+                                rep.violation('SEGMENT-order', m, q, 'order:%s' % arg.id,
+                                              '`%s`: the old %s boundary matrix `%s` must stay the '
+                                              'outer one, i.e. the %s operand of the bond; as '
+                                              'written the accumulated gauge matrices are '
+                                              'multiplied in the wrong order' %
+                                              (unparse(v)[:80], side, arg.id, side), v.lineno)
+    return n
+
+
+def check_perm_direction(prog, rep):
+    """An index list built from LegPipe.map_incoming_flat holds DESTINATION positions (where each
+    incoming combination lands in the pipe). Re-ordering values given in the incoming order is a
+    scatter (`new[perm] = old`) or a gather with the inverse (`old[inverse_permutation(perm)]`,
+    `old[np.argsort(perm)]`); a plain gather `old[perm]` applies the permutation backwards."""
+    n = 0
+    for rel in (MPS, 'tenpy/networks/site.py'):
+        m = prog.module(rel)
+        for q, f in m.functions.items():
+            dest = set()
+            for st in stmts_of(f):
+                if isinstance(st, ast.Assign) and len(st.targets) == 1 and isinstance(
+                        st.targets[0], ast.Name) and isinstance(
+                            st.value, (ast.ListComp, ast.Call)) and \
+                        'map_incoming_flat' in unparse(st.value) and \
+                        isinstance(st.value, ast.ListComp):
+                    dest.add(st.targets[0].id)
+            for nm in dest:
+                for x in body_nodes(f):
+                    if isinstance(x, ast.Subscript) and isinstance(x.slice, ast.Name) and \
+                            x.slice.id == nm:
+                        n += 1
+                        gather = isinstance(x.ctx, ast.Load)
+                        rep.instance('PERM-direction', {'function': q, 'use': unparse(x),
+                                                        'gather': gather})
+                        if gather:
+                            rep.violation('PERM-direction', m, q, 'gather-with-destinations:' + nm,
+                                          '`%s`: `%s` lists where each incoming index combination '
+                                          'lands in the pipe; gathering with it applies the '
+                                          'permutation in the wrong direction (use '
+                                          'inverse_permutation(%s) or scatter)' %
+                                          (unparse(x), nm, nm), x.lineno)
+                    if isinstance(x, ast.Call) and call_name(x) in ('inverse_permutation',
+                                                                    'argsort') and \
+                            x.args and unparse(x.args[0]) == nm:
+                        n += 1
+                        rep.instance('PERM-direction', {'function': q, 'use': unparse(x)})
+    return n
+
+
 def run(prog, rep, tier):
     rep.rule('FORM-isometry', 'typestate on direct flows: a tensor that is the U/Q output of a '
              'factorization is stored as form A, a VH output as form B (through relabelling / '
@@ -183,9 +301,17 @@ def run(prog, rep, tier):
              'rebuilt tensors vs recorded forms')
     rep.rule('FORM-canonical', 'structure of canonical_form_finite, convert_form, get_theta, '
              'entanglement_entropy')
+    rep.rule('SEGMENT-order', 'accumulated segment boundaries: the old left matrix is the left '
+             'operand, the old right matrix the right operand of the composition')
+    rep.rule('PERM-direction', 'destination index lists from map_incoming_flat are scattered or '
+             'inverted, never gathered with')
     n = check_isometry_forms(prog, rep)
     check_form_flow(prog, rep)
     check_canonical_form(prog, rep)
+    if check_segment_order(prog, rep) < 2:
+        raise AnalysisError('SEGMENT-order: contractions with segment boundaries not found')
+    if check_perm_direction(prog, rep) < 1:
+        raise AnalysisError('PERM-direction: use of the map_incoming_flat index list not found')
     rep.floor('FORM-isometry', 8)
     rep.assumptions += ['nothing about the represented vector, Schmidt values or entropies is '
                         'decided']
